@@ -563,6 +563,13 @@ func err1Obligations(w *World) []Ob {
 					continue
 				}
 			}
+			if c.consumed && role == "sink" {
+				if why := writeErrorBypassed(p, s, fn); why != "" {
+					ob.Status, ob.Detail = Violation, why
+					l.add(ob)
+					continue
+				}
+			}
 			switch {
 			case c.consumed:
 				ob.Status, ob.Detail = OK, strings.Join(dedupSorted(c.how), "; ")
@@ -582,6 +589,55 @@ func err1Obligations(w *World) []Ob {
 	// tested and returned inside the body)
 	for _, o := range rangeFuncErrObligations(w) {
 		l.add(o)
+	}
+	// an error type of the module that carries another error (a cause kept in a field) lets errors.Is / errors.As see
+	// through it: a wrapper without Unwrap hides the reader's, writer's or callback's error from the caller
+	{
+		p := w.D()
+		nTypes := 0
+		for _, path := range sortedKeys(p.ModPkgs) {
+			pk := p.ModPkgs[path]
+			scope := pk.Types.Scope()
+			for _, name := range scope.Names() {
+				tn, ok := scope.Lookup(name).(*types.TypeName)
+				if !ok {
+					continue
+				}
+				named, ok := tn.Type().(*types.Named)
+				if !ok {
+					continue
+				}
+				st, ok := named.Underlying().(*types.Struct)
+				if !ok {
+					continue
+				}
+				ms := types.NewMethodSet(types.NewPointer(named))
+				if ms.Lookup(pk.Types, "Error") == nil {
+					continue
+				}
+				carries := ""
+				for i := 0; i < st.NumFields(); i++ {
+					if isErrorType(st.Field(i).Type()) {
+						carries = st.Field(i).Name()
+					}
+				}
+				if carries == "" {
+					continue
+				}
+				nTypes++
+				ob := Ob{Func: relTypeString(named), Construct: "an error type that carries a cause unwraps to it", Pos: p.Pos(tn.Pos()), Scope: "lib", Role: "wrap-type", Nontrivial: true}
+				if strings.HasPrefix(path, modulePath+"/cmd") {
+					ob.Scope = "cli"
+				}
+				if ms.Lookup(pk.Types, "Unwrap") != nil || ms.Lookup(pk.Types, "Is") != nil {
+					ob.Status, ob.Detail = OK, "has Unwrap (or Is): errors.Is / errors.As reach the error kept in field "+carries
+				} else {
+					ob.Status, ob.Detail = Violation, "the type keeps an error in field "+carries+" and has an Error method but no Unwrap: an error handed back wrapped in it is no longer recognisable with errors.Is / errors.As (a reader's or writer's failure comes back as a different error)"
+				}
+				l.add(ob)
+			}
+		}
+		_ = nTypes
 	}
 	return l.list
 }
@@ -1108,6 +1164,56 @@ func errorSideReturnsNil(p *Prog, s errSource, fn *ssa.Function) string {
 		}
 		why = "where the error of " + s.what + " is known to be non-nil, the return at " + p.InstrPos(r) + " hands back " + describeValue(ev) + ", which may be nil: the failure is reported as success on that path"
 	})
+	return why
+}
+
+// writeErrorBypassed: the error of a write is returned on some routes but a `return nil` can be reached from the write
+// on a route that never tested it (e.g. the error is looked at only when the byte count is short): a writer that
+// reports (len(p), err) — legal for io.Writer — then has its failure turned into success.
+func writeErrorBypassed(p *Prog, s errSource, fn *ssa.Function) string {
+	if s.val == nil || fn.Signature.Results().Len() == 0 {
+		return ""
+	}
+	res := fn.Signature.Results()
+	if !isErrorType(res.At(res.Len() - 1).Type()) {
+		return ""
+	}
+	start := s.instr.Block()
+	safeEdge := func(from *ssa.BasicBlock, k int) bool {
+		if len(from.Instrs) == 0 || len(from.Succs) != 2 {
+			return false
+		}
+		ifi, ok := from.Instrs[len(from.Instrs)-1].(*ssa.If)
+		if !ok {
+			return false
+		}
+		tv, nonNil, ok := nilTest(ifi.Cond, k == 0)
+		return ok && !nonNil && (tv == s.val || sameVar(tv, s.val))
+	}
+	why := ""
+	seen := map[*ssa.BasicBlock]bool{}
+	var walk func(b *ssa.BasicBlock, first bool)
+	walk = func(b *ssa.BasicBlock, first bool) {
+		if why != "" || (seen[b] && !first) {
+			return
+		}
+		seen[b] = true
+		if len(b.Instrs) > 0 {
+			if r, isR := b.Instrs[len(b.Instrs)-1].(*ssa.Return); isR {
+				vals := rr(r)
+				if len(vals) > 0 && isNilConst(vals[len(vals)-1]) {
+					why = "the return at " + p.InstrPos(r) + " hands back nil on a route from " + s.what + " that never compared its error with nil: a writer that reports an error together with a full byte count (allowed by io.Writer) has its failure reported as success"
+				}
+				return
+			}
+		}
+		for k, s2 := range b.Succs {
+			if !safeEdge(b, k) {
+				walk(s2, false)
+			}
+		}
+	}
+	walk(start, true)
 	return why
 }
 
